@@ -112,7 +112,7 @@ def run(ctx):
     # static tie: model = code text (regenerated + re-proved on every run); failing inputs are searched below
     nonshear_static.static_tie(ctx, rd, groups=nonshear_static.C01_GROUPS)
 
-    n = 40 if ctx.tier == "quick" else 1500
+    n = 40 if ctx.tier == "quick" else 5000
     cases, meta, consts = build_cases(ctx, n)
     check_constants(ctx, consts)
     files = shards(ctx, rd, cases, 20)
